@@ -71,7 +71,18 @@ pub struct Scenario {
     /// write and copy, and are not part of the validation against the real file system (the
     /// checks run as root, which ignores permission bits)
     pub readonly: Vec<String>,
+    /// a failure that is a STATE of the system for the rest of the run (a busy mount point, a
+    /// non-blocking descriptor without data, a full or read-only volume): every OS call from this
+    /// OS-call index on fails with this errno - however often it is repeated
+    pub sticky: Option<(usize, i32)>,
 }
+
+/// how many OS-call indices a sticky failure covers (a call that repeats a failing OS call more
+/// often than STALL_CALLS times without returning is reported as `no-progress`)
+pub const STICKY_SPAN: usize = 1200;
+pub const STALL_CALLS: usize = 1000;
+/// errnos that are plausible as states (EINTR, a transient by nature, is not among them)
+pub const STICKY_ERRNOS: &[i32] = &[libc::EBUSY, libc::EAGAIN, libc::EACCES, libc::EROFS, libc::ENOSPC, libc::EIO, libc::EMFILE, libc::ETXTBSY, libc::EDQUOT, libc::ESTALE, libc::EPERM, libc::ENOMEM, libc::ETIMEDOUT];
 
 fn stdin_json(e: &StdinEvent) -> Value {
     match e {
@@ -100,6 +111,7 @@ impl Scenario {
             "faults": self.faults.iter().map(|(i, e, t)| json!([i, e, t])).collect::<Vec<_>>(),
             "stdin": self.stdin.iter().map(stdin_json).collect::<Vec<_>>(),
             "readonly": self.readonly,
+            "sticky": self.sticky.map(|(i, e)| json!([i, e])),
         })
     }
     pub fn from_json(v: &Value) -> Scenario {
@@ -135,6 +147,7 @@ impl Scenario {
                 .collect(),
             stdin: v["stdin"].as_array().unwrap().iter().map(stdin_from_json).collect(),
             readonly: v["readonly"].as_array().map(|a| a.iter().filter_map(|p| p.as_str().map(|s| s.to_string())).collect()).unwrap_or_default(),
+            sticky: v.get("sticky").and_then(|s| s.as_array()).map(|a| (a[0].as_u64().unwrap() as usize, a[1].as_i64().unwrap() as i32)),
         }
     }
 }
@@ -152,6 +165,11 @@ fn make_os(sc: &Scenario) -> SimOs {
     }
     for (i, e, t) in &sc.faults {
         o.faults.insert(*i, FaultSpec { errno: *e, torn: *t });
+    }
+    if let Some((from, errno)) = sc.sticky {
+        for k in from..from + STICKY_SPAN {
+            o.faults.insert(k, FaultSpec { errno, torn: 0 });
+        }
     }
     o.stdin = sc.stdin.clone();
     o.readonly = sc.readonly.iter().cloned().collect();
@@ -328,10 +346,20 @@ fn execute(sc: &Scenario, osim: SimOs, rep: &mut RunReport) {
         // the OS calls this invocation made
         let entries: Vec<os::Call> = os::with(|o| o.calls[before.0..].to_vec()).unwrap();
         let injected: Vec<&os::Call> = entries.iter().filter(|e| e.injected).collect();
+        if entries.len() >= STALL_CALLS && injected.len() >= STALL_CALLS {
+            rep.violation = Some((
+                "no-progress".into(),
+                format!("call {ci} `{text}` repeated a failing OS call {} times ({} {:?}) instead of returning the error: against a failure that persists it never returns", injected.len(), injected[0].op, injected[0].result),
+            ));
+            return;
+        }
         for e in &entries {
             let fault_kind = if e.injected {
-                let errno = sc.faults.iter().find(|(i, _, _)| *i == e.idx).map(|(_, n, _)| *n).unwrap_or(0);
-                let n = errno_name(errno);
+                let errno = match sc.sticky {
+                    Some((from, errno)) if e.idx >= from => errno,
+                    _ => sc.faults.iter().find(|(i, _, _)| *i == e.idx).map(|(_, n, _)| *n).unwrap_or(0),
+                };
+                let n = if sc.sticky.is_some_and(|(from, _)| e.idx >= from) { format!("sticky:{}", errno_name(errno)) } else { errno_name(errno) };
                 *rep.faults_fired.entry(n.clone()).or_default() += 1;
                 if ci > 0 && matches!(sc.calls[ci - 1].func.as_str(), "fs.create_dir" | "fs.create_dir_all" | "fs.write_to_file" | "fs.rename" | "fs.copy_file") {
                     rep.fault_after_create += 1;
@@ -1051,7 +1079,9 @@ pub fn gen(seed: u64, boot_seed: u64, run: u64, faulty: bool) -> Scenario {
             }
         }
     }
-    Scenario { boot_seed, key_seed, init, calls, faults, stdin, readonly }
+    // one fault-injecting run in six: from some OS call on the failure is a state, not an event
+    let sticky = if faulty && readonly.is_empty() && rng.chance(1, 6) { Some((rng.below(calls.len().max(1)), STICKY_ERRNOS[rng.below(STICKY_ERRNOS.len())])) } else { None };
+    Scenario { boot_seed, key_seed, init, calls, faults, stdin, readonly, sticky }
 }
 
 // ---------------------------------------------------------------------------------------------
